@@ -13,11 +13,24 @@ THIS = 4
 INTS = [-2147483648, -2147483647, -100, -7, -1, 0, 0, 1, 2, 3, 5, 8, 31, 32, 100, 1023, 65536, 2147483646, 2147483647]
 UINTS = [0, 0, 1, 2, 5, 31, 32, 100, 65535, 2147483647, 2147483648, 4294967294, 4294967295]
 STRS = ["", "a", "hello", "x y", "é", "あ", "b", "hellp"]
+import struct
+DBL = lambda v: struct.unpack("<Q", struct.pack("<d", v))[0]
+NAN = 0x7ff8000000000000
+# binary64 bit patterns: zeros of both signs, ordinary values, the extremes, infinities, a NaN
+DOUBLES = [DBL(x) for x in (0.0, 0.0, -0.0, 1.0, 1.5, -2.25, 2.5, 100.0, 0.1, 1e308, -1e308, 5e-324, 3000000000.0, -0.75)] + [DBL(float("inf")), DBL(float("-inf")), NAN]
+
+
+def canon_doubles(text):
+    """d:<bits> tokens with any NaN pattern -> d:nan (x86 produces the negative quiet NaN, the model the positive one)"""
+    def f(m):
+        b = int(m.group(1))
+        return "d:nan" if (b & 0x7ff0000000000000) == 0x7ff0000000000000 and (b & 0xfffffffffffff) else m.group(0)
+    return re.sub(r"\bd:(\d+)", f, text)
 K_TARGETS = ["model/Sem.vo"]
 HEADER = """From QV Require Import model.Base model.Lang model.Sem.
 Open Scope string_scope.
 Definition NAMES := ["a"; "b"; "sub"].
-Definition MkO (b : bool) (i u : Z) (s : list N) (n : option nat) (m1 m2 : Z) : object := {| o_b := b; o_i := i; o_u := u; o_s := s; o_next := n; o_m1 := m1; o_m2 := m2 |}.
+Definition MkO (b : bool) (i u : Z) (s : list N) (n : option nat) (m1 m2 : Z) (d : N) : object := {| o_b := b; o_i := i; o_u := u; o_s := s; o_next := n; o_m1 := m1; o_m2 := m2; o_d := d |}.
 Definition W (l : list object) : state := {| objs := l; trace := [] |}.
 Definition oname (i : nat) : string := nth i ["a"; "b"; "sub"; "root"; "self"] "?".
 Fixpoint hex4s (n : N) (k : nat) : string := match k with O => "" | S k' => hex4s (n / 16) k' ++ String (Ascii.ascii_of_N (let d := (n mod 16)%N in if (d <? 10)%N then 48 + d else 87 + d)%N) "" end.
@@ -26,6 +39,7 @@ Fixpoint strhex (s : list N) : string := match s with [] => "" | c :: r => hex4s
 Definition show (v : val) : string :=
   match v with
   | VB b => if b then "b:1" else "b:0" | VI z => "i:" ++ zs z | VU z => "u:" ++ zs z | VL z => "i:" ++ zs z
+  | VD d => "d:" ++ NilEmpty.string_of_uint (N.to_uint d)
   | VS s => "s:" ++ (match s with [] => "-" | _ => strhex s end) | VP None => "p:null" | VP (Some i) => "p:" ++ oname i | VNull => "null" | VVoid => "void"
   end.
 Fixpoint join (sep : string) (l : list string) : string := match l with [] => "" | [x] => x | x :: r => x ++ sep ++ join sep r end.
@@ -37,7 +51,7 @@ Definition show_effect (e : effect) : string :=
   | ELog lv args => "log " ++ lv ++ " " ++ (match args with [] => "-" | _ => join "|" (map show args) end)
   end.
 Definition show_obj (o : object) : string :=
-  join "," [show (VB (o_b o)); show (VI (o_i o)); show (VU (o_u o)); show (VS (o_s o)); show (VP (o_next o)); show (VI (o_m1 o)); show (VI (o_m2 o))].
+  join "," [show (VB (o_b o)); show (VI (o_i o)); show (VU (o_u o)); show (VS (o_s o)); show (VP (o_next o)); show (VI (o_m1 o)); show (VI (o_m2 o)); show (VD (model.Floats.canon (o_d o)))].
 Definition show_state (r : res state) : string :=
   match r with Def st => join ";" (map show_effect (rev (trace st))) ++ " # " ++ join " " (map show_obj (objs st)) | Undef => "UNDEF" | Stuck w => "STUCK " ++ w end.
 Definition bind_all (target : string) (body : callback) (ws : list state) : list string := map (fun w => show_res (run_binding NAMES 4 w target body)) ws.
@@ -49,14 +63,14 @@ def world(rng):
     objs = []
     for k in range(5):
         objs.append({"b": rng.random() < 0.5, "i": rng.choice(INTS), "u": rng.choice(UINTS), "s": rng.choice(STRS),
-                     "next": rng.choice([None, None, 0, 1, 2]), "m1": rng.choice(INTS), "m2": rng.choice(INTS)})
+                     "next": rng.choice([None, None, 0, 1, 2]), "m1": rng.choice(INTS), "m2": rng.choice(INTS), "d": rng.choice(DOUBLES)})
     return objs
 
 
 def coq_world(w):
     def o(x):
-        return "MkO %s (%d) %d %s %s (%d) (%d)" % ("true" if x["b"] else "false", x["i"], x["u"], prog.coq_text(x["s"]), "None" if x["next"] is None else "(Some %d%%nat)" % x["next"],
-                                                 x.get("m1", 0), x.get("m2", 0))
+        return "MkO %s (%d) %d %s %s (%d) (%d) %d%%N" % ("true" if x["b"] else "false", x["i"], x["u"], prog.coq_text(x["s"]), "None" if x["next"] is None else "(Some %d%%nat)" % x["next"],
+                                                 x.get("m1", 0), x.get("m2", 0), x.get("d", 0))
     return "(W [%s])" % "; ".join(o(x) for x in w)
 
 
@@ -65,7 +79,7 @@ def hexs(s):
 
 
 def world_line(w):
-    return "W " + " ".join("%d %d %d %s %s %d %d" % (int(x["b"]), x["i"], x["u"], hexs(x["s"]), "null" if x["next"] is None else NAMES[x["next"]], x.get("m1", 0), x.get("m2", 0)) for x in w)
+    return "W " + " ".join("%d %d %d %s %s %d %d %d" % (int(x["b"]), x["i"], x["u"], hexs(x["s"]), "null" if x["next"] is None else NAMES[x["next"]], x.get("m1", 0), x.get("m2", 0), x.get("d", 0)) for x in w)
 
 
 DRIVER_HEAD = r'''
@@ -77,7 +91,8 @@ DRIVER_HEAD = r'''
 #include <iostream>
 #include <sstream>
 static QString unhex(const std::string &h) { QString r; if (h == "-") return r; for (size_t i = 0; i + 3 < h.size(); i += 4) r.d.push_back(char16_t(std::stoul(h.substr(i, 4), nullptr, 16))); return r; }
-static std::string dumpObj(VObj *o) { return show(o->b_) + "," + show(o->i_) + "," + show(o->u_) + "," + show(o->s_) + "," + show(static_cast<const QObject *>(o->next_)) + "," + show(o->m1_) + "," + show(o->m2_); }
+static std::string dumpObj(VObj *o) { return show(o->b_) + "," + show(o->i_) + "," + show(o->u_) + "," + show(o->s_) + "," + show(static_cast<const QObject *>(o->next_)) + "," + show(o->m1_) + "," + show(o->m2_) + "," + show(o->d_); }
+static double undbl(unsigned long long b) { double v; std::memcpy(&v, &b, 8); return v; }
 '''
 
 
@@ -98,9 +113,9 @@ def driver_source(objects, evals, handlers, targets=()):
     lines.append("    std::string line;")
     lines.append("    while (std::getline(std::cin, line)) {")
     lines.append("        std::istringstream in(line); std::string cmd; in >> cmd;")
-    lines.append("        if (cmd == \"W\") { for (int k = 0; k < 5; ++k) { int b; long long i, m1, m2; unsigned long long u; std::string sh, nx; in >> b >> i >> u >> sh >> nx >> m1 >> m2;")
+    lines.append("        if (cmd == \"W\") { for (int k = 0; k < 5; ++k) { int b; long long i, m1, m2; unsigned long long u, db; std::string sh, nx; in >> b >> i >> u >> sh >> nx >> m1 >> m2 >> db;")
     lines.append("            std::vector<VObj *> targets; if (k < 4) targets.push_back(world[k]); else targets = owners;")
-    lines.append("            for (VObj *o : targets) { o->b_ = b; o->i_ = int(i); o->u_ = uint(u); o->s_ = unhex(sh); o->next_ = nx == \"null\" ? nullptr : nx == \"a\" ? world[0] : nx == \"b\" ? world[1] : world[2]; o->m1_ = int(m1); o->m2_ = int(m2); } }")
+    lines.append("            for (VObj *o : targets) { o->b_ = b; o->i_ = int(i); o->u_ = uint(u); o->s_ = unhex(sh); o->next_ = nx == \"null\" ? nullptr : nx == \"a\" ? world[0] : nx == \"b\" ? world[1] : world[2]; o->m1_ = int(m1); o->m2_ = int(m2); o->d_ = undbl(db); } }")
     lines.append("            trace().lines.clear(); std::cout << \"R ok\" << std::endl; }")
     lines.append("        else if (cmd == \"E\") { int k; in >> k; std::string r; switch (k) {")
     for k, fn in enumerate(evals):
@@ -117,13 +132,15 @@ def driver_source(objects, evals, handlers, targets=()):
                 reads.append("int x%d; in >> x%d;" % (j, j)); call.append("bool(x%d)" % j)
             elif t == "string":
                 reads.append("std::string x%d; in >> x%d;" % (j, j)); call.append("unhex(x%d)" % j)
+            elif t == "double":
+                reads.append("unsigned long long x%d; in >> x%d;" % (j, j)); call.append("undbl(x%d)" % j)
         lines.append("            case %d: { %s %s_obj.%s(%s); break; }" % (k, " ".join(reads), oid, sig, ", ".join(call)))
     lines.append("            default: break; }")
     lines.append("            std::string t; for (size_t q = 0; q < trace().lines.size(); ++q) { if (q) t += \";\"; t += trace().lines[q]; }")
     lines.append("            std::cout << \"R \" << t << \" # \" << dumpObj(world[0]) << \" \" << dumpObj(world[1]) << \" \" << dumpObj(world[2]) << \" \" << dumpObj(world[3]) << \" \" << dumpObj(owners.empty() ? world[3] : owners[k < (int)owners.size() ? k : 0]) << std::endl; }")
     lines.append("        else if (cmd == \"S\") { if (!is_setup) { s.setup(); is_setup = true; } std::cout << \"R ok\" << std::endl; }")
     lines.append("        else if (cmd == \"C\") { int k; std::string p, v; in >> k >> p >> v; VObj *o = world[k];")
-    lines.append("            if (p == \"b\") o->setB(v == \"1\"); else if (p == \"i\") o->setI(int(std::stoll(v))); else if (p == \"u\") o->setU(uint(std::stoull(v))); else if (p == \"s\") o->setS(unhex(v)); else if (p == \"m1\") o->setM1(int(std::stoll(v))); else if (p == \"m2\") o->setM2(int(std::stoll(v)));")
+    lines.append("            if (p == \"b\") o->setB(v == \"1\"); else if (p == \"i\") o->setI(int(std::stoll(v))); else if (p == \"u\") o->setU(uint(std::stoull(v))); else if (p == \"s\") o->setS(unhex(v)); else if (p == \"m1\") o->setM1(int(std::stoll(v))); else if (p == \"m2\") o->setM2(int(std::stoll(v))); else if (p == \"d\") o->setD(undbl(std::stoull(v)));")
     lines.append("            else if (p == \"next\") o->setNext(v == \"null\" ? nullptr : v == \"a\" ? world[0] : v == \"b\" ? world[1] : world[2]);")
     lines.append("            std::cout << \"R ok\" << std::endl; }")
     lines.append("        else if (cmd == \"T\") { std::string r;")
@@ -152,7 +169,7 @@ def run_script(dirpath, script_lines, timeout=120):
     env = dict(os.environ, ASAN_OPTIONS="detect_leaks=0:abort_on_error=0", UBSAN_OPTIONS="print_stacktrace=0:halt_on_error=1")
     pr = subprocess.run([os.path.join(dirpath, "driver")], input="\n".join(script_lines) + "\n", capture_output=True, text=True, timeout=timeout, env=env)
     res = [re.sub(r"\b([psc][:a-z ]*?)\b[th]\d+\b", lambda m: m.group(0), l[2:]) for l in pr.stdout.split("\n") if l.startswith("R ")]
-    res = [re.sub(r"\b[th]\d+\b", "self", x) for x in res]
+    res = [canon_doubles(re.sub(r"\b[th]\d+\b", "self", x)) for x in res]
     markers = [l for l in pr.stdout.split("\n") if l.startswith("@@")]
     return res, pr.returncode, (markers + [pr.stderr[-1500:]])
 
